@@ -367,6 +367,12 @@ Enforce(a) == Has(a, "mode") /\ a.mode = "enforce"
 NeedTenant(a) == Enforce(a) /\ (~Has(a, "ctx") \/ ~Has(a.ctx, "tenant") \/ (Has(a.ctx, "blank") /\ a.ctx.blank))
 Dev(nm) == PrintT(<<"DEVIATION", l, nm>>)
 
+\* a hit sequence (<<frame, from, to>> each) with at most k hits of any one frame kept, order preserved
+CapSlices(sq, k) ==
+  LET idx == {i \in 1..Len(sq) : Cardinality({j \in 1..i : sq[j][1] = sq[i][1]}) <= k}
+      nth(n) == CHOOSE i \in idx : Cardinality({j \in idx : j <= i}) = n IN
+  [n \in 1..Cardinality(idx) |-> sq[nth(n)]]
+
 TSearch ==
   /\ IsEvent("search") /\ Read("search")
   /\ LET a == Ev.args
@@ -410,10 +416,22 @@ TSearch ==
          \* C16: the pages partition the result stream
          /\ (Has(v, "pages") =>
                LET cat == MQ!Concat(v.pages)
-                   good == /\ ~Has(v, "paging_err") /\ ~Has(v, "paging_runaway")
-                           /\ cat = v.oneshot
-                           /\ \A i \in 1..Len(v.totals) : v.totals[i] = v.oneshot_total IN
-               ~good => IF "D16_pagination" \in Defects THEN Dev("D16_pagination") ELSE Chk("search.pages", FALSE))
+                   goodSeq == ~Has(v, "paging_err") /\ ~Has(v, "paging_runaway") /\ cat = v.oneshot
+                   goodTot == \A i \in 1..Len(v.totals) : v.totals[i] = v.oneshot_total
+                   \* as built a response holds at most top_k slices of one document, so with small pages the later slices of a
+                   \* document that has more of them are never returned: the one-request sequence with every document capped
+                   capped == CapSlices(v.oneshot, a.top_k)
+                   capSeq == ~Has(v, "paging_err") /\ ~Has(v, "paging_runaway") /\ cat = capped /\ capped # v.oneshot IN
+               \* the concatenated pages are the one-request sequence: no hit lost, repeated or moved
+               /\ (IF goodSeq THEN TRUE
+                   ELSE IF capSeq /\ "D16_slice_cap" \in Defects THEN Dev("D16_slice_cap")
+                   \* as built the lexical engine fetches 4 * (top_k + cursor) candidates (at least 20) and re-ranks them by recency:
+                   \* with more matching documents than the first page's window the pages are cut from differently ordered lists
+                   ELSE IF "D16_candidate_window" \in Defects /\ Cardinality({v.oneshot[i][1] : i \in 1..Len(v.oneshot)}) > Max2(20, 4 * a.top_k)
+                        THEN Dev("D16_candidate_window")
+                   ELSE Chk("search.pages", FALSE))
+               \* total_hits the same on every page (as built it is not: deviation D16_pagination)
+               /\ (~goodTot => IF "D16_pagination" \in Defects THEN Dev("D16_pagination") ELSE Chk("search.pages", FALSE)))
          \* C28: the same query on the same table gives the same hits (as a set) whichever handle answers
          /\ Chk("search.same", (Has(a, "qid") /\ a.qid \in DOMAIN qhist /\ qhist[a.qid].tab = TabKey(tab)) => qhist[a.qid].res = FS)
   /\ Observed(Ev.obs)
@@ -482,6 +500,9 @@ TCards ==
      \* C26: cards extracted during a put point at the frame the document really has, and say what it says
      /\ Chk("card.source", \A i \in 1..Len(auto) : auto[i].src < Len(tab) /\ tab[auto[i].src + 1].uri = auto[i].src_uri
                                                    /\ (Committed => auto[i].src_exists /\ auto[i].src_uri_matches))
+     \* the value is somewhere else in the document, but not in the text of the frame the card names: never allowed
+     /\ Chk("card.value", \A i \in 1..Len(auto) : (Committed /\ auto[i].src_exists /\ ~auto[i].value_in_text /\ Has(auto[i], "value_in_doc")) => ~auto[i].value_in_doc)
+     \* the value is nowhere in the document: the extractor rewrote it (as built: deviation)
      /\ (\E i \in 1..Len(auto) : Committed /\ auto[i].src_exists /\ ~auto[i].value_in_text) =>
             IF "D26_value_rewritten" \in Defects THEN Dev("D26_value_rewritten") ELSE Chk("card.value", FALSE)
      /\ Chk("card.queue", \A i \in 1..Len(v.queue) : v.queue[i] < Len(tab) /\ tab[v.queue[i] + 1].role = "doc")
